@@ -238,6 +238,14 @@ class C02(Property):
         ops += [["decide", 24, B + 2 * MS, 1000, 1000], ["decide", 25, B + 2 * MS, 1000, 1000], ["decide", 26, B + 2 * MS + 1, 0, 0],
                 ["finish", 25], ["decide", 27, B + 2 * MS + 2, 0, 0], ["finish", 26], ["finish", 27], ["fail", 28]]
         cs.append({"kind": "conc", "window": 10 * SEC, "buckets": 10, "threshold": 900, "t0": B, "ops": ops})
+        # completions while somebody else is on avgFlying: 30 let in, the lock is taken, requests complete four at a time
+        # (Fail: capacity stays 10), every sample 29..10 is above 10; then CPU = threshold (factor 1): 10 in flight is
+        # not above 10 -> let in, 11 in flight and an average above 10 -> shed
+        ops = [["allow", B, 0, 0] for _ in range(30)]
+        for g in range(5):
+            ops += [["hold"]] + [["fail", 4 * g + j] for j in range(4)] + [["release"]]
+        ops += [["allow", B + MS, 999, 999], ["allow", B + MS, 999, 999], ["allow", B + MS, 999, 999]]
+        cs.append({"kind": "conc", "window": 5 * SEC, "buckets": 50, "threshold": 999, "t0": B, "ops": ops})
         # wrappers in front of a real shedder: handlers that panic / answer 503 / time out while others are in flight
         reqs = [{"codes": [], "body": True, "panic": False} for _ in range(14)]
         reqs[1] = {"codes": [500], "body": False, "panic": True}
@@ -420,9 +428,19 @@ class C02(Property):
                 holders.append(len(ops))
                 ops.append(["allow", t, rng.choice(lo), rng.choice(lo)])
             t += rng.choice([1, MS, 5 * MS, bd // 3 + 1])
-            keep = rng.choice([0, 0, 0, 1, 2, 5])                    # ... and drains one by one
+            keep = rng.choice([0, 0, 0, 1, 2, 5, 12, 20])            # ... and drains one by one
             rng.shuffle(holders)
+            contended = rng.random() < 0.6
             while len(holders) > keep:
+                if contended and rng.random() < 0.35:
+                    # somebody else is inside the avgFlying critical section while 1..4 requests complete: they get
+                    # past their decrement, wait for the lock, and fold their samples in afterwards - none is lost
+                    ops.append(["hold"])
+                    for _ in range(min(rng.choice([1, 2, 3, 4, 4]), len(holders) - keep)):
+                        i = holders.pop()
+                        ops.append(["pass", i, t] if rng.random() < 0.5 else ["fail", i])
+                    ops.append(["release"])
+                    continue
                 i = holders.pop()
                 ops.append(["pass", i, t] if rng.random() < 0.7 else ["fail", i])
             t += rng.choice([0, 1, MS, bd, bd + 1, COOL // 2])
@@ -726,7 +744,7 @@ class C02(Property):
             return []
         rc, out, res = vlib.go_test_overlay("./core/load", OVERLAY, run="^TestVerifC02Race$", cases=[], tag="c02r",
                                             timeout=600, race=True, env={"VERIF_C02_RACE": "1"})
-        ctx.checker_cmds.append("go test -race -run TestVerifC02Race ./core/load (overlay): 16 goroutines x 3000 Allow/Pass/Fail")
+        ctx.checker_cmds.append("go test -race -run TestVerifC02Race ./core/load (overlay): 16 goroutines x 3000 Allow/Pass/Fail; 4000 rounds of two concurrent resolutions against a lock contender")
         if rc != 0 or not res:
             if "DATA RACE" in out:
                 return [{"what": "data race in core/load under concurrent Allow/Pass/Fail", "replay": out[-3000:]}]
@@ -738,6 +756,9 @@ class C02(Property):
             fails.append({"what": "flying != admitted - resolved under concurrency", "replay": r})
         if r["idleShed"] != 0:
             fails.append({"what": "idle shedder shed a request", "replay": r})
+        if r.get("avgMismatch", 0) != 0 or r.get("avgRounds", 0) == 0:
+            fails.append({"what": "a resolution's sample for the moving average was lost (or folded twice) under contention "
+                                  "for avgFlyingLock: avgFlying is not the fold of the two samples in either order", "replay": r})
         return fails
 
     def coq_case(self, case, obs):
@@ -803,6 +824,10 @@ class C02(Property):
                 items.append("(KEnter, %s)" % kn)
             elif o[0] == "decide":
                 items.append("(KDecide %s %s %s %s, %s)" % (cz(o[1]), cz(o[2]), cz(o[3]), cz(o[4]), ka))
+            elif o[0] == "hold":
+                items.append("(KHold, %s)" % kn)
+            elif o[0] == "release":
+                items.append("(KRelease, %s)" % kn)
             else:
                 items.append("(KFinish %s, %s)" % (cz(o[1]), kn))
         cfg = "(mkCfg %s %s %s true)" % (cz(case["window"]), cz(case["buckets"]), cz(case["threshold"]))
@@ -999,6 +1024,16 @@ class C02(Property):
                     fs.append("conc_dropper_parked_at_log")
                 if any(o[0] == "decide" and not b["shed"] and b["fl"] >= 2 for o, b in zip(case["ops"], obs["obs"])):
                     fs.append("conc_let_in_while_others_decide")
+                waits, held = [], 0
+                for o in case["ops"]:
+                    if o[0] == "hold":
+                        held = 0
+                    elif o[0] in ("pass", "fail"):
+                        held += 1
+                    elif o[0] == "release":
+                        waits.append(held)
+                if waits:
+                    fs.append("resolutions_waiting_for_avg_lock<=%d" % max(waits))
             elif kind == "multi":
                 fs.append("shedders=%d" % len(vs))
                 if any(o["nop"] for c, o in vs) and any(not o["nop"] for c, o in vs):
@@ -1088,6 +1123,18 @@ class C02(Property):
                     # a finish needs the decide of its thread
                     dec = {ops[j][1] for j in kept if ops[j][0] == "decide"}
                     kept = [j for j in kept if ops[j][0] != "finish" or ops[j][1] in dec]
+                    # hold ... release stay paired, with nothing but pass / fail in between
+                    ok, held = True, False
+                    for j in kept:
+                        k = ops[j][0]
+                        if k == "hold":
+                            ok, held = ok and not held, True
+                        elif k == "release":
+                            ok, held = ok and held, False
+                        elif held and k not in ("pass", "fail"):
+                            ok = False
+                    if not ok or held:
+                        continue
                 new = {j: k for k, j in enumerate(kept)}
                 out = []
                 for j in kept:
